@@ -146,10 +146,14 @@ type loggingStorer interface {
 
 var hostValues = []yc.Value{yc.Num(41), yc.Bool(false), yc.Str("host")}
 
-func c03Walk(ctx *report.Ctx, c *explore.Chooser, partName string, p *yc.Program, init map[string]yc.Value, storerKind int, devBudget int, maxJumps int) {
+func c03Walk(ctx *report.Ctx, c *explore.Chooser, partName string, p *yc.Program, init map[string]yc.Value, storerKind int, devBudget int, maxJumps int, refusals ...int) {
 	var cur loggingStorer
 	initCalls := 0
-	wo := yc.WalkOpts{MaxSteps: 16, MaxJumps: maxJumps, CompareStore: true, StrictErrors: true, DevBudget: devBudget,
+	nref := 0
+	if len(refusals) > 0 {
+		nref = refusals[0]
+	}
+	wo := yc.WalkOpts{MaxSteps: 16, MaxJumps: maxJumps, CompareStore: true, StrictErrors: true, DevBudget: devBudget, Refusals: nref,
 		NewStorer: func() variable.Storer {
 			switch storerKind {
 			case 0:
@@ -193,8 +197,17 @@ func c03Walk(ctx *report.Ctx, c *explore.Chooser, partName string, p *yc.Program
 	}
 	if devBudget != 0 {
 		wo.Host = func(ch *explore.Chooser, step int, m *yc.Machine, st variable.Storer) {
-			k := ch.ChooseDev(1+2*len(hostValues), "host-write")
+			k := ch.ChooseDev(2+2*len(hostValues), "host-write")
 			if k == 0 {
+				return
+			}
+			if k == 1+2*len(hostValues) {
+				// the host empties its storer (a new game): no variable is known any more
+				st.Clear()
+				for name := range m.Store {
+					delete(m.Store, name)
+				}
+				m.Notes = append(m.Notes, fmt.Sprintf("after step %d the host cleared its storer", step))
 				return
 			}
 			name := []string{"v", "w"}[(k-1)%2]
@@ -262,6 +275,24 @@ func runC03(ctx *report.Ctx) {
 		}
 		p := &yc.Program{Nodes: []*yc.Node{{Title: "A", Body: []*yc.Stmt{yc.Line("L0"), st, yc.Line("L1"), readLine("v"), readLine("w")}}}}
 		c03Walk(ctx, c, "I", p, init, kind, 1, 2)
+	})
+
+	// RF: the family I once more without host write; instead, between any two steps (or before the first), the host performs
+	// one operation the library refuses (restoring a snapshot of another script that names an unknown node and holds every
+	// variable under another type; registering values that are no functions): the variables are what they were
+	part(ctx, "RF", 1, func(c *explore.Chooser) {
+		init := mkInit(c)
+		name := []string{"v", "w"}[c.Choose(2, "var")]
+		other := map[string]string{"v": "w", "w": "v"}[name]
+		k := c.Choose(len(allOps), "op")
+		rhs := rhsFull(other)
+		e := rhs[c.Choose(len(rhs), "rhs")]
+		kind := c.Choose(3, "storer")
+		if !c.Mine() {
+			return
+		}
+		p := &yc.Program{Nodes: []*yc.Node{{Title: "A", Body: []*yc.Stmt{yc.Line("L0"), yc.Set(name, allOps[k], e), yc.Line("L1"), readLine("v"), readLine("w")}}}}
+		c03Walk(ctx, c, "RF", p, init, kind, 0, 2, 1)
 	})
 
 	// H: histories
